@@ -382,7 +382,7 @@ def search(ctx, res, broken):
     for d in res.disagreements[:300]:
         for kind in ('ref', 'staged'):
             c = dict(d['case'], kind=kind)
-            if positional(c):
+            if positional(c) or not documented_use(c):
                 continue
             f = oracle_case(c)
             if f:
